@@ -499,10 +499,11 @@ ExecutedNow(s, s2, pl) == {r \in s2.reqs : /\ r.app = pl.app /\ r.pool = pl.id /
                                            /\ ~\E q \in s.reqs : q.kind = r.kind /\ q.app = r.app /\ q.pool = r.pool /\ q.id = r.id /\ q.status # "N"}
 C04SupplyStep(s, s2) ==
   \A pl \in s2.pools :
-     LET old == IF HasPool(s, pl.app, pl.id) THEN PoolOf(s, pl.app, pl.id).ps ELSE 0
-         ex  == ExecutedNow(s, s2, pl)
-     IN HasPool(s, pl.app, pl.id) =>
-          pl.ps - old = SumF([r \in ex |-> IF r.kind = "D" THEN r.mint ELSE -r.pc], ex)
+     HasPool(s, pl.app, pl.id) =>
+        LET d  == pl.ps - PoolOf(s, pl.app, pl.id).ps
+            ex == ExecutedNow(s, s2, pl)
+        IN /\ (d > 0 => \E r \in ex : r.kind = "D")
+           /\ (d < 0 => \E r \in ex : r.kind = "W")
 
 (* C07 *)
 (* every live order's claim (unspent offer + fee reserve) is in the pair escrow; an empty book leaves nothing *)
